@@ -539,6 +539,49 @@ pub fn cases(prop: &str, thorough: bool, seed: u64, c: &mut Cases) {
                 c.emit("find", &format!("find {k}"));
             }
         }
+        "C13" => {
+            let perms: Vec<usize> = if thorough { (0..120).step_by(7).collect() } else { vec![0, 1 + rng.below(119) as usize] };
+            for p in perms {
+                for a in 0..48 {
+                    c.emit("enum5/all-hands-with-lowest-card-a (flags: flush, straight, wheel)", &format!("enum5 {a} {p}"));
+                }
+            }
+            let deck = layout_deck();
+            // straights, wheels and near-straights (the span-5 hands the unrepaired predicate got wrong), seeded suits and orders
+            for lo in 0..9usize {
+                for variant in 0..6 {
+                    let mut ranks: Vec<usize> = (lo..lo + 5).collect();
+                    match variant {
+                        1 => ranks[1] = ranks[0],
+                        2 => ranks[3] = ranks[4],
+                        3 => ranks[2] = ranks[1],
+                        4 => { ranks[1] = ranks[0]; ranks[2] = ranks[0]; }
+                        5 => { ranks[1] = ranks[0]; ranks[3] = ranks[4]; }
+                        _ => {}
+                    }
+                    for _ in 0..6 {
+                        let mut used = std::collections::BTreeSet::new();
+                        let mut ws = Vec::new();
+                        for r in &ranks {
+                            loop {
+                                let su = rng.below(4) as usize;
+                                if used.insert((r, su)) {
+                                    ws.push(deck[(3 - su) * 13 + (12 - r)]);
+                                    break;
+                                }
+                            }
+                        }
+                        rng.shuffle(&mut ws);
+                        c.emit("ev5/span-five-ranks", &format!("ev5 {}", join(ws)));
+                    }
+                }
+            }
+            for _ in 0..(if thorough { 100_000 } else { 10_000 }) {
+                let mut idx: Vec<usize> = (0..52).collect();
+                rng.shuffle(&mut idx);
+                c.emit("ev5/seeded-hand-seeded-order", &format!("ev5 {}", join(idx[..5].iter().map(|i| deck[*i]))));
+            }
+        }
         "C14" => {
             for w in structured_words() {
                 c.emit("acc/structured", &format!("acc {w}"));
@@ -614,6 +657,7 @@ pub fn sweep(prop: &str, thorough: bool, seed: u64) -> Sweep {
         "C18" => sweep_c18(seed, thorough),
         "C14" => sweep_c14(seed, thorough),
         "C01" => sweep_c01(seed, thorough),
+        "C13" => sweep_c13(seed, thorough),
         "C20" => sweep_c20(),
         _ => panic!("no sweep for {prop}"),
     }
@@ -1099,5 +1143,71 @@ fn sweep_c01(seed: u64, thorough: bool) -> Sweep {
     );
     s.sample(format!("royal flush {} -> {}", join(&deck[0..5]), Five::from([deck[0], deck[1], deck[2], deck[3], deck[4]]).hand_rank_value()));
     s.sample(format!("7-5-4-3-2 -> {}", Five::from([deck[46], deck[35], deck[23], deck[11], deck[12]]).hand_rank_value()));
+    s
+}
+
+/// C13: predicates against the layout-derived truth, all hands x slot orders.
+fn sweep_c13(seed: u64, thorough: bool) -> Sweep {
+    let deck = layout_deck();
+    let mut rng = Rng::new(seed ^ 0xC13);
+    let perms: Vec<usize> = if thorough { (0..120).collect() } else { vec![0, 1 + rng.below(119) as usize, 1 + rng.below(119) as usize] };
+    let parts: Vec<Sweep> = par_ranges(48, 48, |lo, hi| {
+        let mut s = Sweep::default();
+        for a in lo as usize..hi as usize {
+            for b in a + 1..52 {
+                for c in b + 1..52 {
+                    for d in c + 1..52 {
+                        for e in d + 1..52 {
+                            let idx = [a, b, c, d, e];
+                            let mut mask = 0u32;
+                            let mut flush = true;
+                            for k in 0..5 {
+                                mask |= 1 << (12 - idx[k] % 13);
+                                flush &= idx[k] / 13 == idx[0] / 13;
+                            }
+                            let wheel = mask == 0b1_0000_0000_1111;
+                            let straight = wheel || (0..9).any(|lo| mask == 0b11111 << lo);
+                            if straight { s.nontrivial += perms.len() as u64; }
+                            if flush { s.nontrivial += perms.len() as u64; }
+                            for &p in &perms {
+                                let pm = perm5(p);
+                                let arr = [deck[idx[pm[0]]], deck[idx[pm[1]]], deck[idx[pm[2]]], deck[idx[pm[3]]], deck[idx[pm[4]]]];
+                                let h = Five::from(arr);
+                                s.evaluations += 1;
+                                let got = (h.is_flush(), h.is_straight(), h.is_straight_flush(), h.is_wheel(), ckc_rs::evaluate::is_flush(arr), ckc_rs::evaluate::or_rank_bits(arr) as u32);
+                                let want = (flush, straight, straight && flush, wheel, flush, mask);
+                                if got != want {
+                                    s.fail("predicate differs from the cards (flush, straight, straight_flush, wheel, evaluate::is_flush, evaluate::or_rank_bits)", &join(arr), &format!("{want:?}"), &format!("{got:?}"));
+                                }
+                                // agreement with the category obtained by ranking the same hand
+                                use ckc_rs::hand_rank::HandRankName as N;
+                                if let Some(name) = guarded(|| h.hand_rank().name) {
+                                    let cat_straight = matches!(name, N::Straight | N::StraightFlush);
+                                    let cat_flush = matches!(name, N::Flush | N::StraightFlush);
+                                    if cat_straight != got.1 || cat_flush != got.0 || (name == N::StraightFlush) != got.2 {
+                                        s.fail("predicate disagrees with the category of the hand's rank", &join(arr), &format!("{name:?}"), &format!("{got:?}"));
+                                    }
+                                } else {
+                                    s.fail("hand_rank panics", &join(arr), "a rank", "panic");
+                                }
+                            }
+                        }
+                    }
+                }
+            }
+        }
+        s
+    });
+    let mut s = Sweep { exhaustive: true, ..Default::default() };
+    for p in parts {
+        s.merge(p);
+    }
+    s.count("hands", 2_598_960);
+    s.count("slot-orders-per-hand", perms.len() as u64);
+    s.rule = format!("all 2,598,960 five-card hands x {} slot orders: four predicates and two deprecated free functions against suits/rank sets read from the layout, and against the category of hand_rank(); non-trivial = the hand is a straight or a flush", perms.len());
+    let h = Five::from([deck[8], deck[9], deck[23], deck[38], deck[51]]);
+    s.sample(format!("6S 5S 4H 2D 2C: is_straight = {}", h.is_straight()));
+    let w = Five::from([deck[0], deck[9], deck[23], deck[37], deck[51]]);
+    s.sample(format!("AS 5S 4H 3D 2C: is_straight = {}, is_wheel = {}", w.is_straight(), w.is_wheel()));
     s
 }
